@@ -32,5 +32,5 @@ cAttrs == [names |-> {N(<<"a">>)}, anames |-> {N(<<"x">>), N(<<"y", "-", "z">>),
            texts |-> {}, maxattrs |-> 3, extras |-> {}]
 cAttrs2 == [cAttrs EXCEPT !.maxattrs = 2]      \* two elements: at most two attributes each (three on one element: cAttrs with MaxElems = 1)
 cExtras == [names |-> {N(<<"a">>), N(<<"b", "-", "c">>)}, anames |-> {N(<<"x">>)}, avals |-> {<<"1">>}, texts |-> {<<" ", "t", " ">>, <<"\n">>, <<"<", "&">>},
-            maxattrs |-> 1, extras |-> {XC(<<"c", "&", "<", "'", ">", " ", "<", "b">>), XD(<<"D", "O", "C", "T", "Y", "P", "E", " ", "a">>), XP(<<"x", "m", "l", "-", "s">>, <<"x", "=", "1", ">", "\n", "<", "y">>)}]   \* ("> <" inside a comment / instruction is text, not inter-element white space)
+            maxattrs |-> 1, extras |-> {XC(<<"c", "&", "<", "'", ">", " ", "<", "b">>), XD(<<"D", "O", "C", "T", "Y", "P", "E", " ", "a">>), XP(<<"x", "m", "l", "-", "s">>, <<"x", "=", "1", ">", "\n", "<", "y", " ">>)}]   \* ("> <" inside a comment / instruction is text, not inter-element white space)
 =============================================================================
